@@ -16,6 +16,7 @@ import (
 	"github.com/inbucket/inbucket/v3/pkg/message"
 	"github.com/inbucket/inbucket/v3/pkg/storage"
 	"github.com/inbucket/inbucket/v3/pkg/stringutil"
+	"github.com/inbucket/inbucket/v3/pkg/verifhook"
 	"github.com/rs/zerolog/log"
 )
 
@@ -104,12 +105,15 @@ func (fs *Store) AddMessage(m storage.Message) (id string, err error) {
 	}
 
 	// Write the message content.
+	verifhook.Crash("add.raw.before-create", fm.rawPath())
 	file, err := os.Create(fm.rawPath())
 	if err != nil {
 		return "", err
 	}
+	verifhook.Crash("add.raw.created", fm.rawPath())
 	w := bufio.NewWriter(file)
 	size, err := io.Copy(w, r)
+	verifhook.Crash("add.raw.copied", fm.rawPath())
 	if err != nil {
 		// Try to remove the file.
 		_ = file.Close()
@@ -123,11 +127,13 @@ func (fs *Store) AddMessage(m storage.Message) (id string, err error) {
 		_ = os.Remove(fm.rawPath())
 		return "", err
 	}
+	verifhook.Crash("add.raw.flushed", fm.rawPath())
 	if err := file.Close(); err != nil {
 		// Try to remove the file.
 		_ = os.Remove(fm.rawPath())
 		return "", err
 	}
+	verifhook.Crash("add.raw.closed", fm.rawPath())
 
 	// Update the index.
 	fm.Fdate = m.Date()
@@ -224,6 +230,7 @@ func (fs *Store) VisitMailboxes(f func([]storage.Message) (cont bool)) error {
 
 	// Loop over level 1 directories.
 	for _, name1 := range names1 {
+		verifhook.Yield("file.visit.level1 " + name1)
 		names2, err := readDirNames(fs.mailPath, name1)
 		if err != nil {
 			return err
@@ -231,6 +238,7 @@ func (fs *Store) VisitMailboxes(f func([]storage.Message) (cont bool)) error {
 
 		// Loop over level 2 directories.
 		for _, name2 := range names2 {
+			verifhook.Yield("file.visit.level2 " + name1 + "/" + name2)
 			names3, err := readDirNames(fs.mailPath, name1, name2)
 			if err != nil {
 				return err
@@ -238,6 +246,7 @@ func (fs *Store) VisitMailboxes(f func([]storage.Message) (cont bool)) error {
 
 			// Loop over mailboxes.
 			for _, name3 := range names3 {
+				verifhook.Yield("file.visit.mailbox " + name3)
 				mb := fs.mboxFromHash(name3)
 				mb.RLock()
 				msgs, err := mb.getMessages()
